@@ -260,6 +260,9 @@ pub fn judge_recv(case: &RecvCase, o: &RecvOutcome) -> Vec<(String, String)> {
 #[derive(Clone, Copy, Debug, PartialEq, Eq)]
 pub enum When {
     Before,
+    /// after the request stream exists at the endpoint (request sent / accepted and resolved), but before
+    /// the oversized section is attempted: the limit in force at the attempt is the advertised one
+    Between,
     After,
     Never,
 }
@@ -328,6 +331,8 @@ pub fn send_run(c: &SendCase) -> SendOutcome {
     let state: Shared<Option<Arc<h3::SharedState>>> = shared(None);
     let go = shared(false);
     let sent = shared(false);
+    let created = shared(false);
+    let between = c.when == When::Between;
     let (all, _) = api_fields(c.slot, c.size, c.by_adding).expect("reachable size");
     let regs: Vec<Field> = all.iter().filter(|(n, _)| n[0] != b':').cloned().collect();
     let hm = {
@@ -339,6 +344,7 @@ pub fn send_run(c: &SendCase) -> SendOutcome {
     };
     if client_me {
         let (net2, res2, st2, go2, sent2, slot, hm2) = (net.clone(), res.clone(), state.clone(), go.clone(), sent.clone(), c.slot, hm.clone());
+        let created2 = created.clone();
         let sp = ex.spawner();
         ex.spawn("main", async move {
             let mut b = h3::client::builder();
@@ -350,8 +356,9 @@ pub fn send_run(c: &SendCase) -> SendOutcome {
                 std::future::pending::<()>().await;
                 drop(conn);
             });
+            let early = between && slot == Slot::RequestTrailers;
             let mut spins = 0;
-            while !*go2.borrow() && spins < 400 {
+            while !early && !*go2.borrow() && spins < 400 {
                 spins += 1;
                 yield_now().await;
             }
@@ -361,6 +368,12 @@ pub fn send_run(c: &SendCase) -> SendOutcome {
                     *req.headers_mut() = hm2.clone();
                 }
                 let mut s = sr.send_request(req).await?;
+                *created2.borrow_mut() = true;
+                let mut spins = 0;
+                while early && !*go2.borrow() && spins < 800 {
+                    spins += 1;
+                    yield_now().await;
+                }
                 if slot == Slot::RequestTrailers {
                     s.send_trailers(hm2.clone()).await?;
                 }
@@ -377,6 +390,7 @@ pub fn send_run(c: &SendCase) -> SendOutcome {
         });
     } else {
         let (net2, res2, st2, go2, sent2, slot, hm2) = (net.clone(), res.clone(), state.clone(), go.clone(), sent.clone(), c.slot, hm.clone());
+        let created2 = created.clone();
         let sp = ex.spawner();
         ex.spawn("main", async move {
             let mut b = h3::server::builder();
@@ -395,8 +409,9 @@ pub fn send_run(c: &SendCase) -> SendOutcome {
             });
             let r = async {
                 let (_req, mut s) = resolver.resolve_request().await?;
+                *created2.borrow_mut() = true;
                 let mut spins = 0;
-                while !*go2.borrow() && spins < 400 {
+                while !*go2.borrow() && spins < 800 {
                     spins += 1;
                     yield_now().await;
                 }
@@ -420,6 +435,7 @@ pub fn send_run(c: &SendCase) -> SendOutcome {
     }
     {
         let (net, c, go, sent, state) = (net.clone(), c.clone(), go.clone(), sent.clone(), state.clone());
+        let created = created.clone();
         ex.spawn("script", async move {
             let ctrl = if peer == CLIENT { CLIENT_CTRL } else { SERVER_CTRL };
             let settings = control_preamble(&rs::encode(&[(rs::MAX_FIELD_SECTION_SIZE, c.limit)]));
@@ -433,6 +449,27 @@ pub fn send_run(c: &SendCase) -> SendOutcome {
                     net.raw_open(ctrl);
                     net.raw_write(peer, ctrl, &settings);
                     // wait until the endpoint has applied them
+                    let mut spins = 0;
+                    loop {
+                        let applied = state.borrow().as_ref().map(|s| limit_is(&s.settings(), c.limit)).unwrap_or(false);
+                        if applied || spins > 300 {
+                            break;
+                        }
+                        spins += 1;
+                        yield_now().await;
+                    }
+                    *go.borrow_mut() = true;
+                }
+                When::Between => {
+                    // (for the Request slot the stream is created by the attempt itself: same as Before)
+                    let wait_for_stream = c.slot != Slot::Request;
+                    let mut spins = 0;
+                    while wait_for_stream && !*created.borrow() && spins < 400 {
+                        spins += 1;
+                        yield_now().await;
+                    }
+                    net.raw_open(ctrl);
+                    net.raw_write(peer, ctrl, &settings);
                     let mut spins = 0;
                     loop {
                         let applied = state.borrow().as_ref().map(|s| limit_is(&s.settings(), c.limit)).unwrap_or(false);
@@ -467,7 +504,7 @@ pub fn send_run(c: &SendCase) -> SendOutcome {
     SendOutcome {
         result,
         wire: net.wire(me, 0),
-        applied: c.when == When::Before,
+        applied: matches!(c.when, When::Before | When::Between),
         close_calls: net.close_calls(me).iter().map(|c| c.0).collect(),
         panics: q.panics,
     }
@@ -486,7 +523,7 @@ pub fn judge_send(c: &SendCase, o: &SendOutcome) -> Vec<(String, String)> {
     for (t, p) in &o.panics {
         out.push((format!("C10:send:{slot}:panic@{}", explore::panics::short_loc(p)), format!("{ctx}: task {t} panicked: {p}")));
     }
-    let in_force = if c.when == When::Before { c.limit } else { VARINT_MAX };
+    let in_force = if matches!(c.when, When::Before | When::Between) { c.limit } else { VARINT_MAX };
     // 1. nothing over the limit in force on the wire
     let (frames, _) = rf::segment(&o.wire);
     let heads: Vec<&rf::Frame> = frames.iter().filter(|f| f.ty == rf::HEADERS).collect();
@@ -494,10 +531,13 @@ pub fn judge_send(c: &SendCase, o: &SendOutcome) -> Vec<(String, String)> {
         Slot::Request | Slot::Response => 0,
         _ => 1,
     };
+    // (Between + request trailers: the request head went out before the peer's SETTINGS arrived)
+    let head_before_settings = c.when == When::Between && c.slot == Slot::RequestTrailers;
     for (i, hf) in heads.iter().enumerate() {
         match rq::decode_static_only(&hf.payload) {
             Ok(fs) => {
                 let s = section_size(&fs);
+                let in_force = if head_before_settings && i == 0 { VARINT_MAX } else { in_force };
                 if s > in_force {
                     out.push((
                         format!("C10:send:{slot}:oversize-on-wire:by={}", s - in_force),
@@ -512,7 +552,7 @@ pub fn judge_send(c: &SendCase, o: &SendOutcome) -> Vec<(String, String)> {
         }
     }
     // 2. the result of the call
-    let head_blocked = matches!(c.slot, Slot::RequestTrailers) && section_size(&[f(":method", b"GET"), f(":scheme", b"https"), f(":authority", b"a"), f(":path", b"/")]) > in_force
+    let head_blocked = !head_before_settings && matches!(c.slot, Slot::RequestTrailers) && section_size(&[f(":method", b"GET"), f(":scheme", b"https"), f(":authority", b"a"), f(":path", b"/")]) > in_force
         || matches!(c.slot, Slot::ResponseTrailers) && section_size(&[f(":status", b"200")]) > in_force;
     if head_blocked {
         return out;
@@ -527,7 +567,7 @@ pub fn judge_send(c: &SendCase, o: &SendOutcome) -> Vec<(String, String)> {
         }
     } else if o.result != "ok" {
         out.push((
-            format!("C10:send:{slot}:refused-within-limit:{}", if c.when == When::Before { "limit-applied" } else { "before-settings" }),
+            format!("C10:send:{slot}:refused-within-limit:{}", if matches!(c.when, When::Before | When::Between) { "limit-applied" } else { "before-settings" }),
             format!("{ctx}: limit in force {in_force}; send returned {:?}", o.result),
         ));
     }
@@ -541,7 +581,7 @@ pub fn run(args: &Args) -> i32 {
     let thorough = args.tier == Tier::Thorough;
     let mut rep = Report::new("C10", args.tier, args.seed, "model_checking");
     rep.exhaustive = true;
-    rep.rule = "receive: limits {0, 1, 33, 34, 35, 64, 89, 100, 167, 16383, 2^62-1} x sections whose RFC size sweeps L-2..L+2 (built by stretching one value and by adding a field, so the per-field +32 is exercised) plus the empty and the minimal section, reference-encoded (literal representations) and injected by a scripted peer as request headers, response headers, request trailers, response trailers; the 431 path with the client advertising {nothing, 41, 42, 43}. send: the same limits advertised by a scripted peer x application sections sweeping L-2..L+2 x {send_request, send_response, request trailers, response trailers} x SETTINGS delivered {before the attempt (and applied), after it, never}; every HEADERS frame on the wire is decoded and measured by refimpl. states = distinct cases; non-trivial = cases at distance <= 2 from the limit.".into();
+    rep.rule = "receive: limits {0, 1, 33, 34, 35, 64, 89, 100, 167, 16383, 2^62-1} x sections whose RFC size sweeps L-2..L+2 (built by stretching one value and by adding a field, so the per-field +32 is exercised) plus the empty and the minimal section, reference-encoded (literal representations) and injected by a scripted peer as request headers, response headers, request trailers, response trailers; the 431 path with the client advertising {nothing, 41, 42, 43}. send: the same limits advertised by a scripted peer x application sections sweeping L-2..L+2 x {send_request, send_response, request trailers, response trailers} x SETTINGS delivered {before the stream exists (and applied), after the stream exists but before the attempt (and applied), after the attempt, never}; every HEADERS frame on the wire is decoded and measured by refimpl. states = distinct cases; non-trivial = cases at distance <= 2 from the limit.".into();
     rep.assumptions = vec![
         "refimpl::fields::section_size = sum(name + value + 32) (RFC 9114 4.2.2)".into(),
         "the smallest request h3 delivers (CONNECT + :authority) has size 89: smaller limits are exercised at the boundary through trailers (regular fields only) and with always-oversize heads".into(),
@@ -615,7 +655,7 @@ pub fn run(args: &Args) -> i32 {
                     if api_fields(slot, s, by_adding).is_none() {
                         continue;
                     }
-                    for when in [When::Before, When::After, When::Never] {
+                    for when in [When::Before, When::Between, When::After, When::Never] {
                         scases.push(SendCase { slot, limit: l, size: s, by_adding, when });
                     }
                 }
@@ -681,6 +721,7 @@ pub fn replay(r: &Value) -> i32 {
                 by_adding: r["by_adding"].as_bool().unwrap(),
                 when: match r["when"].as_str().unwrap() {
                     "Before" => When::Before,
+                    "Between" => When::Between,
                     "After" => When::After,
                     _ => When::Never,
                 },
